@@ -29,6 +29,7 @@ func (vc *VC) reset() {
 	vc.fldTags = map[string]int{}
 	vc.memSorts = map[string]string{}
 	vc.addrTerms = map[string]map[Term]*addrUse{}
+	vc.quantKeys = map[string]bool{}
 	vc.havocs = nil
 	vc.closures = map[Term]*closureInfo{}
 	vc.fnTerms = map[Term]*ssa.Function{}
